@@ -1,6 +1,7 @@
 import CircBuf.Lemmas.TieTac
 set_option linter.unusedSimpArgs false
 set_option linter.unusedVariables false
+set_option maxHeartbeats 1000000
 /-! Tie theorems (remove / make_contiguous) — see `CircBuf/Lemmas/CoreTie.lean` for what they are. -/
 namespace CircBuf
 
